@@ -74,12 +74,13 @@ Fixpoint span (p : N -> bool) (s : str) : str * str :=
   | [] => ([], [])
   end.
 
-Definition is_hexchar_re (c : N) : bool := is_digit c || ((97 <=? c) && (c <=? 102)).   (* [\da-f] *)
+Definition is_hexchar_re (c : N) : bool :=
+  is_digit c || ((97 <=? c) && (c <=? 102)) || ((65 <=? c) && (c <=? 70)).   (* the class: digits, a-f, A-F *)
 Definition name_start (c : N) : bool := ((c =? 58) || is_word c) && negb (is_digit c).   (* (?!\d)[:\w] *)
 Definition name_char (c : N) : bool := (c =? 45) || (c =? 46) || (c =? 58) || is_word c. (* [-.:\w] *)
 
 Definition hexchar_value (c : N) : N :=
-  match digit_value c with Some v => v | None => c - 87 end.
+  match digit_value c with Some v => v | None => if 97 <=? c then c - 87 else c - 55 end.
 
 Fixpoint digits_value (base : N) (val : N -> N) (s : str) (acc : N) : N :=
   match s with
